@@ -4,6 +4,8 @@ import (
 	"os"
 	"regexp"
 	"strings"
+
+	"github.com/prometheus/prometheus/model/labels"
 )
 
 // knownClass names the known-finding class a generated query falls into ("" = none). Queries of such a class are
@@ -16,6 +18,19 @@ func knownClass(d *DataJ, q QueryJ, g *exprGen) string {
 		// K1: a matcher with an empty value is dropped by the translation (selector.go: `if len(item.Value) == 0 { continue }`)
 		if m.Value == "" {
 			return "matcher_with_empty_value"
+		}
+		// K3: a matcher on a label name that no series of the selected metric carries is ignored, although it does not
+		// match the empty string (upstream: no series)
+		if mt, err := labels.NewMatcher(matchType(m.Op), m.Label, m.Value); err == nil && !mt.Matches("") {
+			has := false
+			for _, s := range d.Series {
+				if s.Labels["__name__"] == m.Metric && s.Labels[m.Label] != "" {
+					has = true
+				}
+			}
+			if !has {
+				return "matcher_on_label_unknown_to_metric"
+			}
 		}
 		// K2: regex matchers are compiled unanchored; excluded when, for a value of that label present in the sample set
 		// (or the empty string of a series without the label), substring match and full match differ
@@ -38,4 +53,16 @@ func knownClass(d *DataJ, q QueryJ, g *exprGen) string {
 	}
 	_ = strings.Contains
 	return ""
+}
+
+func matchType(op string) labels.MatchType {
+	switch op {
+	case "=":
+		return labels.MatchEqual
+	case "!=":
+		return labels.MatchNotEqual
+	case "=~":
+		return labels.MatchRegexp
+	}
+	return labels.MatchNotRegexp
 }
